@@ -20,6 +20,8 @@ import native  # noqa: E402
 
 VERIF = os.path.dirname(os.path.dirname(os.path.abspath(__file__)))
 REPO = os.environ.get('VERIF_REPO', '/repo')
+# evidence/ and replays/ live under /verif; runs against scratch trees (seed evaluation) redirect them
+OUT = os.environ.get('VERIF_OUT', VERIF)
 
 
 def load_cfg():
@@ -57,8 +59,8 @@ def run_property(pid, tier, seed):
         return 2
     cp = cfg[pid]
     t0 = time.time()
-    os.makedirs(os.path.join(VERIF, 'evidence'), exist_ok=True)
-    os.makedirs(os.path.join(VERIF, 'replays'), exist_ok=True)
+    os.makedirs(os.path.join(OUT, 'evidence'), exist_ok=True)
+    os.makedirs(os.path.join(OUT, 'replays'), exist_ok=True)
     obligations = []       # all obligations that belong to this property (proof-level)
     bounded = []           # bounded stand-ins (never counted as proved)
     inconclusive = []
@@ -225,7 +227,7 @@ def run_property(pid, tier, seed):
             refuted.remove(o)
     for o in refuted:
         res = native_res.get(id(o))
-        rp = os.path.join(VERIF, 'replays', '%s-%s.json' % (pid, o['id'].replace('/', '_').replace(':', '_').replace(' ', '_')))
+        rp = os.path.join(OUT, 'replays', '%s-%s.json' % (pid, o['id'].replace('/', '_').replace(':', '_').replace(' ', '_')))
         replay = {'property': pid, 'obligation': o['id'], 'function': o.get('fn'), 'engine': o.get('engine'),
                   'repo_location': o.get('where'), 'clause': o.get('text'), 'verifier_message': o.get('detail'),
                   'verifier_output': o.get('rendered', ''), 'expansion': o.get('expansion', ''), 'tier': tier, 'seed': seed}
@@ -279,7 +281,7 @@ def run_property(pid, tier, seed):
     }
     ev = {'property_id': pid, 'tier': tier, 'seed': seed, 'level': level, 'coverage': coverage,
           'assumptions': sorted(assumptions), 'wall_s': round(time.time() - t0, 2), 'violations': len(violations)}
-    with open(os.path.join(VERIF, 'evidence', pid + '.json'), 'w') as f:
+    with open(os.path.join(OUT, 'evidence', pid + '.json'), 'w') as f:
         json.dump(ev, f, indent=1)
 
     for ln in known_lines:
